@@ -3,6 +3,7 @@
 pub mod c09;
 pub mod c10;
 pub mod c11;
+pub mod c13;
 pub mod c16;
 pub mod c17;
 pub mod echo_gen;
@@ -130,6 +131,7 @@ pub fn scenario(name: &str) -> Option<Box<dyn Scenario>> {
         "C09" => Some(Box::new(c09::C09)),
         "C10" => Some(Box::new(c10::C10)),
         "C11" => Some(Box::new(c11::C11)),
+        "C13" => Some(Box::new(c13::C13)),
         "C16" => Some(Box::new(c16::C16)),
         "C17" => Some(Box::new(c17::C17)),
         _ => None,
